@@ -45,7 +45,7 @@ def respace(rng, sql, uni=True):
     word = lambda t: t[:1].isalpha() or t[:1] == "_"
     out = []
     for i, t in enumerate(toks):
-        if t.startswith("'") and len(t) > 2 and rng.random() < 0.3:
+        if t.startswith("'") and len(t) > 2 and rng.random() < 0.3 and "\\" not in t:   # escaped line break: listed finding
             inner = t[1:-1]
             extra = rng.choice(["\n", " \n\n ", "\r\n", "\t"] + (UNI if uni else []))
             t = "'" + inner[: len(inner) // 2] + extra + inner[len(inner) // 2:] + "'"
@@ -166,6 +166,8 @@ def check_parse(ctx, sql, d, case):
             if lex is None:
                 ctx.violation(f"node:{dn}:outside-text", {"sql": sql, "name": name, "meta": dict(m)}, case)
                 return
+            if "\\" in lex:
+                continue  # escape sequences inside the lexeme: its text is not the name verbatim
             core = lex
             if len(lex) >= 2 and lex[0] in "\"`['" and lex[-1] in "\"`]'":   # a string token may serve as a name
                 core = lex[1:-1].replace(lex[-1] * 2, lex[-1])
@@ -189,6 +191,8 @@ PROBES = [
     ("probe/line-break-inside-multi-word-keyword", "", "SELECT a FROM t GROUP\nBY a ORDER BY a"),
     ("probe/lone-CR-inside-quoted-string", "", "SELECT 'a\rb', x\nFROM t"),
     ("probe/command-statement-string-token-offsets", "", "EXPLAIN  SELECT 1"),
+    ("probe/dollar-before-line-break-reports-negative-column", "postgres", "SELECT $\n$ x"),
+    ("probe/backslash-escaped-line-break-inside-string-not-counted", "mysql", "SELECT 'a\\\nb', x\nFROM t"),
 ]
 
 
